@@ -193,6 +193,10 @@ func runC04(c *kit.Ctx) {
 			}
 			sort.Strings(have)
 			req, ok := required[kit.FuncName(fn)]
+			if !ok && fn.Parent() != nil && len(have) == 1 && have[0] == "region.ServerError" {
+				// a predicate "is this a ServerError" written as a function literal (hasServerError inlined)
+				req, ok = []string{"region.ServerError"}, true
+			}
 			if !ok {
 				c.Unk(fn, "error-class-consumer", tas[0].Pos(), "new consumer of the error classes ("+strings.Join(have, ", ")+"): not in the requirement table")
 				continue
